@@ -629,6 +629,12 @@ func (ex *Exec) nameLookup(st *State, pos token.Pos) func(string) (Val, bool) {
 				return v, true
 			}
 		}
+		// a snapshot variable whose anchor has not been passed on this path: an arbitrary value
+		for _, a := range ex.ct.Asserts {
+			if a.Kind == "snap" && a.Var == name {
+				return SV{T: Fresh("unset."+name, SInt)}, true
+			}
+		}
 		// innermost scope at pos
 		scope := ex.fi.Pkg.Types.Scope().Innermost(pos)
 		if scope == nil {
